@@ -291,6 +291,29 @@ def snap_diff(a, b):
     return out
 
 
+_X = sympy.Symbol("x_c20")
+
+
+def _assert_equal(a, b):
+    from symplyphysics import assert_equal  # pylint: disable=import-outside-toplevel
+    return assert_equal(a, b)
+
+
+def _guarded(c):
+    from symplyphysics import Quantity, validate_input, validate_output  # pylint: disable=import-outside-toplevel
+
+    @validate_input(q_=c)
+    @validate_output(c.dimension)
+    def twice(q_):
+        return Quantity(2 * q_)
+
+    @validate_input(q_=c.dimension)
+    @validate_output(c)
+    def same(q_):
+        return q_
+    return twice(c), same(c), twice(q_=Quantity(5 * c))
+
+
 def constant_operations(c, name):
     """(label, thunk) -- the ways library and user code touches an exported constant.  Thunks return the new object(s)
     so that identity with the constant can be checked."""
@@ -321,6 +344,13 @@ def constant_operations(c, name):
         ("evaluate_quantity(c, n=3)", lambda: evaluate_quantity(c, n=3), True),
         ("evaluate_quantity(5*c, n=2, chop=True)", lambda: evaluate_quantity(5 * c, n=2, chop=True), True),
         ("sympy.N(c, 3) / c.evalf(3) / c.n(3)", lambda: (sympy.N(c, 3), c.evalf(3), (2 * c).n(3)), False),
+        # the constant in every role the API offers
+        ("convert_to(Quantity(3*c), c)  [c as target unit]", lambda: convert_to(Quantity(3 * c), c), False),
+        ("convert_to(c, c)", lambda: convert_to(c, c), False),
+        ("convert_to(c**2, c*c)", lambda: convert_to(c**2, c * c), False),
+        ("assert_equal(c, c) / assert_equal(Quantity(2*c), 2*c)", lambda: (_assert_equal(c, c), _assert_equal(Quantity(2 * c), 2 * c)), False),
+        ("(2*x + x**2).subs(x, c) -> Quantity", lambda: Quantity((2 * _X + _X**2 / _X).subs(_X, c)), True),
+        ("guarded function (validate_input(q_=c) / validate_output(c.dimension)) called with c", lambda: _guarded(c), False),
         # copying and serialisation (SymPy rebuilds objects from .args; on the pinned tree these raise TypeError)
         ("copy.copy(c)", lambda: copy.copy(c), False),
         ("copy.deepcopy(c)", lambda: copy.deepcopy(c), False),
@@ -465,6 +495,157 @@ def channels(ctx, mod, rows, when):
     ctx.coverage["channel_checks"] = ctx.coverage.get("channel_checks", 0) + 3 * n
 
 
+def interpreter_modes(ctx, rows):
+    """The table must be the same in every mode the library can run in: a child interpreter started as `python` and as
+    `python -O` (asserts compiled away; SymPy 1.14 does not import under -OO) reads it and the parent compares."""
+    import json  # pylint: disable=import-outside-toplevel
+    import os  # pylint: disable=import-outside-toplevel
+    import subprocess  # pylint: disable=import-outside-toplevel
+    from vp import common  # pylint: disable=import-outside-toplevel
+    probe = str(common.VERIF / "harness" / "vp" / "c20_probe.py")
+    env = dict(os.environ, PYTHONPATH=str(common.REPO), PYTHONDONTWRITEBYTECODE="1")
+    env.pop("PYTHONOPTIMIZE", None)
+    want = {r["name"]: r for r in rows if r.get("error") is None}
+    n = 0
+    for flags in ([], ["-O"]):
+        mode = ("python " + " ".join(flags)).strip()
+        how = f"PYTHONPATH={common.REPO} {common.PYTHON} {' '.join(flags)} {probe}"
+        try:
+            r = subprocess.run([common.PYTHON, *flags, probe], capture_output=True, text=True, timeout=600, env=env, check=False)
+            data = json.loads(r.stdout)
+        except Exception as e:  # pylint: disable=broad-except
+            ctx.violation(f"C20:mode:{mode}:probe-failed", f"the catalogue could not be read under `{mode}`: {type(e).__name__}: {e}"[:300],
+                {"kind": "broken-tie", "mode": mode, "how": how, "stderr": (r.stderr[-800:] if "r" in locals() else "")}, found_input=False)
+            continue
+        reported = 0
+        for name, w in want.items():
+            got = data["table"].get(name)
+            n += 1
+            problems = []
+            if got is None:
+                problems.append(("presence", "absent", "a Quantity"))
+            else:
+                wd = [str(x) for x in w["dim"]]
+                for fld in ("dimension", "registry_dimension"):
+                    if got[fld] != wd:
+                        problems.append((fld, got[fld], wd))
+                for fld in ("scale_factor", "registry_scale_factor"):
+                    try:
+                        si = exact(sympy.sympify(got[fld])) / Rational(1000)**Rational(w["dim"][1].numerator, w["dim"][1].denominator)
+                        ok = abs(sympy.N(si / w["si"] - 1, 30)) < 1e-12
+                        shown = str(sympy.N(si, 17))
+                    except Exception as e:  # pylint: disable=broad-except
+                        ok, shown = False, str(got[fld])[:120]
+                    if not ok:
+                        problems.append((fld + " (as SI value)", shown, str(sympy.N(w["si"], 17))))
+            for fld, observed, expected in problems:
+                if reported >= 6:
+                    break
+                reported += 1
+                ctx.violation(f"C20:mode:{mode}:{name}:{fld}", f"under `{mode}` constant {name} has {fld} = {observed}; the reading that was "
+                    f"checked against the reference has {expected}",
+                    {"kind": "violation", "item": name, "input": {"constant": name, "mode": mode, "field": fld}, "how": how,
+                     "observed": str(observed), "expected": str(expected),
+                     "theorem_or_tie": "the catalogue read in a child interpreter vs the parent's first reading"}, found_input=True)
+        ctx.coverage.setdefault("interpreter_modes", {})[mode] = {"debug": data.get("debug"), "constants": len(data["table"])}
+    ctx.evaluated(n, 0)
+
+
+SKIP_HELPERS = ("id_generator", "test_decorators", "processors")   # global switches / counters, not helpers on quantities
+QUANTITY_LIKE = ("Quantity", "SupportsFloat", "SupportsAbs", "Expr", "Any", "float", "Basic")
+
+
+def core_helpers():
+    """Public functions of symplyphysics.core.* with a required parameter that can be a quantity (by annotation)."""
+    import importlib  # pylint: disable=import-outside-toplevel
+    import inspect  # pylint: disable=import-outside-toplevel
+    import pkgutil  # pylint: disable=import-outside-toplevel
+    import symplyphysics.core as core  # pylint: disable=import-outside-toplevel
+    out = []
+    for info in pkgutil.walk_packages(core.__path__, core.__name__ + "."):
+        if any(k in info.name for k in SKIP_HELPERS):
+            continue
+        try:
+            m = importlib.import_module(info.name)
+        except Exception:  # pylint: disable=broad-except
+            continue
+        for n, f in sorted(vars(m).items()):
+            if n.startswith("_") or not inspect.isfunction(f) or f.__module__ != m.__name__:
+                continue
+            try:
+                params = [p for p in inspect.signature(f).parameters.values()
+                    if p.default is p.empty and p.kind in (p.POSITIONAL_ONLY, p.POSITIONAL_OR_KEYWORD)]
+            except (TypeError, ValueError):
+                continue
+            if params and any(any(k in str(p.annotation) for k in QUANTITY_LIKE) for p in params):
+                out.append((f"{info.name}.{n}", f, params))
+    return out
+
+
+def call_helper(f, params, c):
+    args = []
+    for p in params:
+        a = str(p.annotation)
+        if "str" in a and not any(k in a for k in QUANTITY_LIKE):
+            args.append("p")
+        elif "Dimension" in a and "SupportsFloat" not in a:
+            args.append(c.dimension)
+        else:
+            args.append(c)
+    try:
+        f(*args)
+        return "returned"
+    except Exception as e:  # pylint: disable=broad-except
+        return type(e).__name__
+
+
+REGISTRY_WRITERS_ALLOWED = {
+    ("symbols/quantities.py", "Quantity.__init__", "set_quantity_dimension"),
+    ("symbols/quantities.py", "Quantity.__init__", "set_quantity_scale_factor"),
+}
+REGISTRY_ATTRS = ("set_quantity_dimension", "set_quantity_scale_factor", "set_global_relative_scale_factor", "set_global_dimension")
+
+
+def registry_writers(ctx):
+    """Static tie: the SI registries are written only by Quantity.__init__.  Every access to SI.set_quantity_* / SI._quantity_*
+    under symplyphysics/core is enumerated from the AST and compared with the allow-list; a new site is a broken tie (the
+    catalogue's immutability argument no longer covers the code)."""
+    import symplyphysics.core as core  # pylint: disable=import-outside-toplevel
+    root = Path(core.__file__).resolve().parent
+    sites = []
+    for f in sorted(root.rglob("*.py")):
+        try:
+            tree = ast.parse(f.read_text())
+        except (OSError, SyntaxError):
+            continue
+        stack = []
+
+        def walk(node):
+            scoped = isinstance(node, (ast.ClassDef, ast.FunctionDef, ast.AsyncFunctionDef))
+            if scoped:
+                stack.append(node.name)
+            if isinstance(node, ast.Attribute) and (node.attr in REGISTRY_ATTRS or node.attr.startswith("_quantity_")):
+                sites.append((str(f.relative_to(root)), ".".join(stack), node.attr, node.lineno))
+            for ch in ast.iter_child_nodes(node):
+                walk(ch)
+            if scoped:
+                stack.pop()
+        walk(tree)
+    for (fn, scope, attr, line) in sites:
+        if (fn, scope, attr) not in REGISTRY_WRITERS_ALLOWED:
+            ctx.violation(f"C20:registry-writer:{fn}:{scope}:{attr}",
+                f"symplyphysics/core/{fn}:{line} ({scope or 'module level'}) accesses SI.{attr}: the SI registry of quantities is expected to be "
+                "written only by Quantity.__init__",
+                {"kind": "broken-tie", "item": f"{fn}:{scope}", "theorem_or_tie": "allow-list of SI registry writers (AST of symplyphysics/core)",
+                 "observed": {"file": fn, "scope": scope, "attribute": attr, "line": line}}, found_input=False)
+    missing = REGISTRY_WRITERS_ALLOWED - {(a, b, c) for a, b, c, _l in sites}
+    for (fn, scope, attr) in sorted(missing):
+        ctx.violation(f"C20:registry-writer-missing:{fn}:{scope}:{attr}",
+            f"{scope} in symplyphysics/core/{fn} no longer calls SI.{attr} directly (e.g. moved into a helper / an assert)",
+            {"kind": "broken-tie", "item": f"{fn}:{scope}", "theorem_or_tie": "allow-list of SI registry writers"}, found_input=False)
+    ctx.coverage["registry_writer_sites"] = [f"{a}:{l} {b} {c}" for a, b, c, l in sites]
+
+
 def shadow_check(ctx, mod, names):
     """Importing a submodule binds it as an attribute of its parent package: a file or directory of symplyphysics/quantities
     named like an exported constant replaces that constant as soon as somebody imports it."""
@@ -576,6 +757,25 @@ def stability(ctx, rows_first):
                 cur = new
     ctx.coverage["stability_operations"] = nops
     ctx.coverage["stability_operation_outcomes"] = outcomes
+
+    # every public helper of symplyphysics.core that can take a quantity, called on every constant (errors are fine)
+    helpers = core_helpers()
+    hist = {}
+    for hname, f, params in helpers:
+        for name in names:
+            c = getattr(mod, name, None)
+            if c is None:
+                continue
+            res = call_helper(f, params, c)
+            nops += 1
+            hist.setdefault(hname, {}).setdefault(res, 0)
+            hist[hname][res] += 1
+        new = snapshot(mod)
+        d = snap_diff(cur, new)
+        if d:
+            report(d, f"{hname}(c, ...) called with c = every exported constant", "core-helpers")
+            cur = new
+    ctx.coverage["stability_core_helpers"] = {k: v for k, v in hist.items()}
 
     # importing submodules binds them as attributes of the parent package
     import pkgutil  # pylint: disable=import-outside-toplevel
@@ -690,6 +890,8 @@ def run(ctx):
     ctx.refs = (refs, tols, dims)
     channels(ctx, importlib.import_module(MODULE), rows, "right after import")
     shadow_check(ctx, importlib.import_module(MODULE), {r["name"] for r in rows})
+    interpreter_modes(ctx, rows)
+    registry_writers(ctx)
     good = [r for r in rows if r["error"] is None]
     by_name = {r["name"]: r for r in good}
 
